@@ -54,9 +54,7 @@ ASSUMPTIONS = [
     "POSIX rename/unlink/mkdir are atomic; one file-system mutation per scheduling point",
     "no two file-store ids collide (C07's id hypothesis); ids in the file model are an abstract fresh counter",
 ]
-NOT_PROVED = [
-    "file_visit_at_most_once_stmt (Proofs/ConcFileVisit.v): one walk reports no mailbox twice — the missing half of 'visited exactly once'; the other half is the theorem file_visit_sees_stable_mailboxes_partial. Checked by correspondence only",
-]
+NOT_PROVED = []
 EXEC_TIMEOUT = {"quick": 600, "thorough": 7200}
 
 
